@@ -258,7 +258,8 @@ def _count_tr(cur):
 
 
 def tail(s, n=30):
-    return "\n".join(s.splitlines()[-n:])
+    ls = [x for x in s.splitlines() if not x.startswith(("Semantic processing", "Linting of", "Parsing file", "SANY finished", "Starting SANY"))]
+    return "\n".join(ls[-n:])
 
 
 def abbrev(ev, lim=300):
